@@ -439,6 +439,11 @@ class Interp:
             try:
                 try:
                     for _k in range(self.unroll):
+                        if _k > 0 and self.fork_while:
+                            # a further unrolled iteration is entered only if the test holds again
+                            t2 = self._ev(st.test)
+                            if not self.truth_sym(t2):
+                                break
                         try:
                             self._block(st.body)
                         except _Continue:
